@@ -154,10 +154,8 @@ func (e *Engine) asn1Unmarshal(st *State, b Slice, target Value) Value {
 }
 
 func (e *Engine) choose(st *State, tag string, n int) int {
-	c := st.fresh(tag, 8)
-	st.pc = append(st.pc, Cmp("bvult", c, BV(8, uint64(n))))
 	for i := 0; i < n-1; i++ {
-		if e.decide(st, Eq(c, BV(8, uint64(i)))) {
+		if e.decide(st, st.fresh(tag, 0)) {
 			return i
 		}
 	}
